@@ -21,6 +21,7 @@ def run(facts, tier):
         ("ooo resets hip", H.ooo_resets_hip, 3, "setting the out-of-order flag zeroes the HIP accumulator of the same array; readers restore the accumulator only for in-order images"),
         ("structural triggers", lambda fa: triggers.obligations(fa, ['hll_union_alloc']), 6, "the comparisons that decide whether the union copies, down-samples or merges an input keep their reviewed boundary (operator and constants)"),
         ("delegations", lambda fa: generic_lints.unconditional_delegations(fa, ('hll/',)), 12, "the typed update overloads of the union hand every datum to the gadget unconditionally, like the sketch's own overloads (spec/delegations.json)"),
+        ("aux values", H.aux_values, 2, "the HLL_4 exception table receives actual register values, never values shifted by curMin"),
         ("find() result tests", H.find_result_tests, 4, "the result of the open-addressing find() is only ever split into < 0 (absent) and >= 0 (present, cell 0 included)"),
         ("tautologies", lambda fa: generic_lints.tautologies(fa, ('hll/',)), 2, "no comparison / assignment / min-max with two identical operands, no if-else with identical arms"),
         ("hazards", lambda fa: hazard_lints.hazards(fa, ('hll/',)), 2, "no 64-bit value silently narrowed at a call of a library function, no numeric_limits<floating>::min() as a lowest value, no random engine constructed inside a loop, no read of a moved-from parameter, no unguarded unsigned `x - c` loop bound (reviewed instances in spec/hazards.json)"),
